@@ -40,10 +40,10 @@ def logprob_matrix(draw, min_T=1, max_T=8, min_C=2, max_C=6, families=None, big_
     if big_alphabet and draw(st.integers(0, 11)) == 0:
         # an alphabet of realistic size (130-300 classes, more than fit into a signed byte): a few frames whose mass sits
         # on a small pool of symbols (so that repeats and joins occur) over a -30 floor
-        C = draw(st.integers(130, 300))
+        C = draw(st.integers(130, 300) | st.integers(258, 320))       # every second table exceeds an unsigned byte as well
         T = draw(st.integers(1, 4))
         blank = C - 1
-        pool = [draw(st.integers(0, C - 2)), draw(st.integers(128, C - 2)), draw(st.integers(0, C - 2)), blank]
+        pool = [draw(st.integers(0, C - 2)), draw(st.integers(128, C - 2)), draw(st.integers(max(0, C - 12), C - 2)), blank]
         rows = []
         for _ in range(T):
             r = [-30.0] * C
